@@ -140,12 +140,19 @@ def run_check(prop: Prop, tier, seed, replay=None):
         obligations.append(("translator: operator table, builtin names, display specifications regenerated from /repo", tok, tdetail))
 
     # 3. Lean: theorems + driver
-    targets = ["driver"] + ([prop.module] if prop.module else [])
+    extra_mods = list(getattr(prop, "extra_modules", []))
+    targets = ["driver"] + ([prop.module] if prop.module else []) + extra_mods
     lok, llog = C.build_lean(targets)
     theorems = C.theorems_of(prop.module, prefix) if prop.module else []
     axioms = {}
     if lok and theorems:
         axioms, atext = C.audit_axioms(prop.module, theorems)
+    for em in extra_mods:
+        et = C.theorems_of(em, prefix)
+        theorems += et
+        if lok and et:
+            ax2, _ = C.audit_axioms(em, et)
+            axioms.update(ax2)
     for t in theorems:
         ax = axioms.get(t)
         good = lok and ax is not None and set(ax) <= C.ALLOWED_AXIOMS
@@ -160,6 +167,8 @@ def run_check(prop: Prop, tier, seed, replay=None):
             rc_, out_, err_ = C.run(["lake", "env", "leanchecker", prop.module], cwd=C.LEAN, timeout=3600)
         obligations.append((f"leanchecker {prop.module}", rc_ == 0, (out_ + err_)[-400:]))
     bad = C.forbidden_hits(prop.module) if prop.module else []
+    for em in getattr(prop, "extra_modules", []):
+        bad += C.forbidden_hits(em)
     obligations.append(("no sorry/admit/axiom/native_decide in import closure", not bad, "; ".join(bad[:5])))
     obligations.extend(prop.extra_obligations(ctx))
 
